@@ -432,6 +432,23 @@ def provenance(func_node, expr, max_depth=12, control=None):
         if isinstance(e, ast.Call):
             from .srcmodel import dotted
             nm = dotted(e.func) or (f"<expr>.{e.func.attr}" if isinstance(e.func, ast.Attribute) else '<call>')
+            if nm == 'getattr' and len(e.args) >= 2 and dotted(e.args[0]):
+                # getattr(obj, 'name') is the attribute obj.name; with a
+                # parameter as the name it is resolved at the call site
+                base = dotted(e.args[0])
+                a1 = e.args[1]
+                if isinstance(a1, ast.Constant) and isinstance(a1.value, str):
+                    out.add(('attr', f"{base}.{a1.value}", e))
+                    for extra in e.args[2:]:
+                        visit(extra, at_node, depth + 1)
+                    return
+                if isinstance(a1, ast.Name):
+                    ds = rd.reaching(at_node, a1.id)
+                    if ds and all(d[0] == 'param' for d in ds):
+                        out.add(('getattr', base, a1.id, e))
+                        for extra in e.args[2:]:
+                            visit(extra, at_node, depth + 1)
+                        return
             out.add(('call', nm, e))
             callee = RESOLVER(nm, e, func_node) if RESOLVER and depth < max_depth - 2 else None
             if callee is not None and callee is not func_node and _ipdepth[0] < 3:
@@ -459,6 +476,12 @@ def provenance(func_node, expr, max_depth=12, control=None):
                             for atom in provenance(callee, r.value, max_depth=max_depth, control=control):
                                 if atom[0] == 'param' and atom[1] in amap:
                                     visit(amap[atom[1]], at_node, depth + 1)
+                                elif atom[0] == 'getattr':
+                                    av = amap.get(atom[2])
+                                    if isinstance(av, ast.Constant) and isinstance(av.value, str):
+                                        out.add(('attr', f"{atom[1]}.{av.value}", e))
+                                    else:
+                                        out.add(('call', 'getattr', atom[3]))
                                 elif atom[0] == 'param':
                                     pass
                                 else:
